@@ -7,7 +7,7 @@ use crate::util;
 use baa::{ArrayOps, Value};
 use num_bigint::BigUint;
 use patronus::expr::{Context, ExprRef, Type};
-use patronus::mc::{InitValue, ModelCheckResult, Witness, bmc};
+use patronus::mc::{InitValue, ModelCheckResult, Witness, bmc, pdr};
 use patronus::smt::{BITWUZLA, CVC5, Solver, SmtLibSolver, YICES2, Z3};
 use patronus::system::TransitionSystem;
 use std::path::{Path, PathBuf};
@@ -365,4 +365,30 @@ pub fn replay_in_interpreter(ctx: &Context, sys: &TransitionSystem, w: &Witness)
 
 pub fn reach_for(ctx: &Context, sys: &TransitionSystem, max_depth: usize, stop_at_fixpoint: bool) -> Result<Reach, String> {
     reach::explore(ctx, sys, &reach::ReachCfg { max_depth, stop_at_fixpoint })
+}
+
+/// runs patronus' pdr against refsolver through the real text protocol
+pub fn run_pdr(ctx: &mut Context, sys: &TransitionSystem, cfg: &McCfg, disable_unsat_cores: bool, workdir: &Path, tag: &str) -> McRun {
+    let replay = workdir.join(format!("{tag}.smt2"));
+    let log = workdir.join(format!("{tag}.log"));
+    let _ = std::fs::remove_file(&log);
+    ensure_z3_server(workdir);
+    set_env("REFSOLVER_LOG", log.to_str().unwrap());
+    set_env("REFSOLVER_SEED", &cfg.solver_seed.to_string());
+    set_env("REFSOLVER_DIVERSIFY", &cfg.diversify.to_string());
+    set_env("REFSOLVER_CORE", cfg.core_mode);
+    let solver = solver_by_name(cfg.persona);
+    let verdict = match util::catch(|| {
+        let mut smt_ctx = solver.start(None).map_err(|e| format!("{e}"))?;
+        let r = pdr(ctx, &mut smt_ctx, sys, disable_unsat_cores).map_err(|e| format!("{e}"));
+        drop(smt_ctx);
+        r
+    }) {
+        Err(p) => Verdict::Panic(p),
+        Ok(Err(e)) => Verdict::Err(e),
+        Ok(Ok(ModelCheckResult::Success)) => Verdict::Success,
+        Ok(Ok(ModelCheckResult::Unknown)) => Verdict::Unknown,
+        Ok(Ok(ModelCheckResult::Fail(w))) => Verdict::Fail(w),
+    };
+    McRun { verdict, replay, log }
 }
